@@ -105,10 +105,13 @@ Row(i) ==
           exp |-> <<>> \o [k \in 1..Len(rs) |-> [ok |-> rs[k].ok, bytes |-> rs[k].bytes]]]
 
 \* ------------------------------------------------------------------------
-\* cases are visited as the nodes of a binary heap so that all workers take part
+\* cases are visited as the nodes of a binary heap so that all workers take part.
+\* IOEnv.MODE = "check": all N cases are states; "export": a single state, the run only writes the cases.
+Checking == IOEnv.MODE = "check"
+NN == IF Checking THEN N ELSE 1
 VARIABLE idx
 Init == idx = 1
-Next == \E j \in {2 * idx, 2 * idx + 1} : j <= N /\ idx' = j
+Next == \E j \in {2 * idx, 2 * idx + 1} : j <= NN /\ idx' = j
 Spec == Init /\ [][Next]_idx
 
 NonZero(p) == \A i \in 1..Len(p) : p[i] # 0
@@ -163,6 +166,6 @@ NExport == NSingle + NSeqSel + Len(Extra)
 ExportId(k) == IF k <= NSingle THEN k
                ELSE IF k <= NSingle + NSeqSel THEN NSingle + (k - NSingle) * SeqStride
                ELSE Extra[k - NSingle - NSeqSel].id
-ASSUME ndJsonSerialize(IOEnv.OUT, [k \in 1..NExport |-> Row(ExportId(k))])
+ASSUME Checking \/ ndJsonSerialize(IOEnv.OUT, [k \in 1..NExport |-> Row(ExportId(k))])
 ASSUME PrintT(<<"GEN", "Gen_StrFrame", N, NSingle, NExport>>)
 =============================================================================
